@@ -335,5 +335,6 @@ def verify(S):
     ctx.explore(canary)
 
 
+ENUMERATED = [{"what": 'maxdepth fixed at 3 (2..3 for sky_within); insert depth enumerated (None, 2, 3, 5 for circles; None, 2, 7 for polygons); vector form with 2 circles, scalar with 1; polygons with 3 and 4 vertices; pixel sets and coordinates symbolic', "counted_as_proved": "per instance"}]
 REPLAY = {"*": "replay_cover"}
 NATIVE_CHECKS = [{"func": "crosscheck", "payload": {}}]
